@@ -40,6 +40,7 @@ type lkRoute struct {
 	Noise   int       `json:"noise,omitempty"`  // free-text / multibyte lines before the annotations
 	File    string    `json:"file"`
 	Pkg2    bool      `json:"pkg2,omitempty"` // the route's controller lives in package api2, whose ApiError is a plain struct
+	Indent string `json:"indent,omitempty"` // white space in front of every line of the doc comment (legal, merely not gofmt'ed)
 	// ExtraRoute, when set, is written as a second @Route line after the first (Route is the first and the one that counts)
 	ExtraRoute string `json:"extraRoute,omitempty"`
 }
@@ -233,6 +234,7 @@ func lkWellLinked(prefix string, r lkRoute) []string {
 
 func lkGenRoute(t *rapid.T, idx int, file string) lkRoute {
 	r := lkRoute{Name: fmt.Sprintf("Op%d", idx), Verb: rapid.SampledFrom([]string{"GET", "POST", "PUT", "DELETE", "PATCH"}).Draw(t, "verb"), File: file}
+	r.Indent = rapid.SampledFrom([]string{"", "", "\t", "  ", "\t\t   "}).Draw(t, "indent")
 	segs := []string{fmt.Sprintf("r%d", idx)}
 	np := rapid.IntRange(0, 2).Draw(t, "nPath")
 	for i := 0; i < np; i++ {
@@ -761,6 +763,9 @@ func (r lkRoute) docLines() []string {
 			l += ", { name: \"" + a.Alias + "\" }"
 		}
 		lines = append(lines, l+") üñï desc")
+	}
+	for i := range lines {
+		lines[i] = r.Indent + lines[i]
 	}
 	return lines
 }
